@@ -130,6 +130,12 @@ def o2(h, st):
         M = op_matrix(q, w)
         ref = float(np.real(psi.conj() @ M @ psi))
         h.check(f"<{name}> equals the value on the same state", abs(val - ref) < 1e-8, detail=f"{val} vs {ref}")
+        # the same observable handed over as an operator OBJECT: a FermionOperator (mapped by the solver with its own encoding) and the already mapped QubitOperator
+        val_f = h.call(VQ, "VQESolver.operator_expectation", s, fn(mol.n_active_mos, up_then_down=False), th)
+        h.check(f"<{name}> given as a FermionOperator equals the value on the same state", abs(val_f - ref) < 1e-8, detail=f"{val_f} vs {ref}")
+        val_q = h.call(VQ, "VQESolver.operator_expectation", s, q, th)
+        h.check(f"<{name}> given as a QubitOperator equals the value on the same state", abs(val_q - ref) < 1e-8, detail=f"{val_q} vs {ref}")
+        h.check(f"Hamiltonian restored after operator_expectation with operator objects ({name})", s.qubit_hamiltonian is ham)
     h.done()
 
 
